@@ -762,6 +762,49 @@ class Tensor:
             raise RuntimeError('Number of dimensions of repeat dims can not be smaller than number of dimensions of tensor')
         return self._fresh(np.tile(self.a, r))
 
+    def repeat_interleave(self, repeats, dim=None, output_size=None):
+        if isinstance(repeats, Tensor):
+            if repeats.dtype.kind != 'i':
+                raise RuntimeError('repeats has to be Long tensor')
+            repeats = repeats.a.astype(int)
+            if repeats.ndim == 0:
+                repeats = int(repeats)
+        a = self.a
+        if dim is None:
+            a = a.reshape(-1); dim = 0
+        try:
+            r = np.repeat(a, repeats, axis=dim)
+        except ValueError as e:
+            raise RuntimeError('repeats must have the same size as input along dim: %s' % e)
+        return self._fresh(r)
+
+    def _imod(self, o, reverse=False):
+        # integer remainder / floor division on constant index tensors (Python sign convention, as torch.remainder / floor_divide)
+        oa = o.a if isinstance(o, Tensor) else o
+        if self.dtype.kind == 'f' or (isinstance(o, Tensor) and o.dtype.kind == 'f') or isinstance(oa, (float, Fraction, np.floating)):
+            raise Unsupported('remainder / floor division of floating point tensors')
+        return oa
+
+    def __mod__(self, o):
+        oa = self._imod(o)
+        if np.any(np.asarray(oa) == 0):
+            raise RuntimeError('ZeroDivisionError')
+        return self._fresh(np.mod(self.a, oa))
+
+    def __rmod__(self, o):
+        oa = self._imod(o)
+        if np.any(self.a == 0):
+            raise RuntimeError('ZeroDivisionError')
+        return self._fresh(np.mod(oa, self.a))
+
+    def __floordiv__(self, o):
+        oa = self._imod(o)
+        if np.any(np.asarray(oa) == 0):
+            raise RuntimeError('ZeroDivisionError')
+        return self._fresh(np.floor_divide(self.a, oa))
+
+    remainder = __mod__; floor_divide = __floordiv__
+
     def flip(self, *dims):
         dims = _shape_arg(dims)
         return self._fresh(np.flip(self.a, axis=dims).copy())
@@ -1346,6 +1389,8 @@ def unsqueeze(t, dim): return t.unsqueeze(dim)
 def flatten(t, start_dim=0, end_dim=-1): return t.flatten(start_dim, end_dim)
 def flip(t, dims): return t.flip(*dims)
 def roll(t, shifts, dims=None): return t.roll(shifts, dims)
+def repeat_interleave(t, repeats, dim=None, output_size=None): return t.repeat_interleave(repeats, dim)
+def remainder(t, o): return t % o
 def split(t, n, dim=0): return t.split(n, dim)
 def chunk(t, k, dim=0): return t.chunk(k, dim)
 def clone(t): return t.clone()
@@ -1485,6 +1530,10 @@ def minimum(a, b): return _ew2(a, b, P.pmin)
 
 
 def clamp(t, min=None, max=None):
+    if t.dtype.kind != 'f' and t.a.dtype != object and all(v is None or isinstance(v, (int, np.integer)) for v in (min, max)):
+        if min is None and max is None:
+            raise RuntimeError("torch.clamp: At least one of 'min' or 'max' must not be None")
+        return t._fresh(np.clip(t.a, min, max))   # constant index tensors stay integer arrays
     r = t
     if min is not None:
         r = r._fresh(_map_obj(r, lambda p: P.pmax(p, Poly.const(min))))
